@@ -12,7 +12,8 @@ RULE = ('separable states built by construction: dims in {(2,2),(2,3),(3,2),(3,3
         'of Werner / isotropic / Horodecki end points / Antoine q in [0,0.5] / maximally mixed / numqi.random.rand_separable_dm; each generated case is pushed through EVERY criterion, '
         'and criteria are called in generated sequences with changing dims (they memoise per-dimension data). Oracle: the verdict must be "passes"; closed-form two-qubit measures '
         'finite and zero up to the rounding of the formula. SDP criterion is_ABk_symmetric_ext: k=1..3 over the flag lattice (quick: (2,2) all flags, (2,3)/(3,3) k<=2). '
-        'Non-trivial = generic mixture or boundary state (rank < D) or >=3 parties; distinct = (criterion family, dims, terms bucket, vector kind, weight kind).')
+        'Non-trivial = generic mixture or boundary state (rank < D) or >=3 parties; distinct = (criterion family, dims, terms bucket, vector kind, weight kind).'
+        ' States are also handed over in other memory layouts (Fortran, strided, read-only), in real and integer dtypes, and the dimension list as a negative-stride integer array.')
 ASSUMPTIONS = ['zero means zero up to the rounding of the formula: concurrence <= 1e-7 (square root of eigenvalue differences), eof <= 1e-10, gme <= 1e-12, negativity <= 1e-9',
                'SDP verdicts are taken as returned (solver tolerance); a cvxpy SolverError inside is_ABk_symmetric_ext is reported by the library as False and therefore judged',
                'criteria are used with their default eps']
